@@ -15,9 +15,9 @@
                         NextAddresses, DeleteKeystore, UpdateManagedKeystores       → phases of the ops
     keystore/addrmgr.go nextAddresses (index read from the BUCKET), updateManagedAddress
                         (cache written BEFORE the re-read of the child numbers)     → `opNewAddr`
-    ntfnshandler.go     NewNtfnsHandler (bestBlock := synced-to), Start (fast-forward, catch-up,
-                        initTaskChan), processConnectedBlock (bestBlock only on success),
-                        filterTx unmined path, OnRemoveWallet, asyncRemove, worker  → `bootVol`, `start`, `opBlock`, `opRecvTx`, …
+    ntfnshandler.go     NewNtfnsHandler (bestBlock := synced-to), Start (resync, fast-forward,
+                        catch-up, initTaskChan), processConnectedBlock (bestBlock only on success),
+                        filterTx unmined path, OnRemoveWallet, asyncRemove (one phase), worker → `bootVol`, `start`, `opBlock`, `recvTx`, …
   A storage fault at call index j of an operation aborts the enclosing Update: the batch is dropped
   (C11's guarantee, taken as the key/value layer's contract), volatile effects made before the
   failing call stay, then the operation's own repair code runs.
@@ -261,22 +261,21 @@ def opRemoveMark (n : Nat) (w : Wid) : Op :=
                    else .ok ({ P with led := { P.led with status := AMap.put P.led.status w { st with removed := true } } }, V)⟩],
     post := fun _ _ _ V => { V with tasks := V.tasks ++ [.rem w] } }
 
-/-- asyncRemove step 1: unspent index, address records, deposit histories and balance of the wallet -/
-def opRemove1 (n : Nat) (w : Wid) : Op :=
-  { phases := [⟨n, fun P V =>
-      let s := P.led
-      .ok ({ P with led := { s with unspent := s.unspent.filter (fun e => e.1.1 ≠ w),
-                                      addrs := s.addrs.filter (fun e => e.1.1 ≠ w),
-                                      game := s.game.filter (fun e => e.1.wallet ≠ w),
-                                      pendGame := s.pendGame.filter (fun e => e.1.1 ≠ w),
-                                      balance := AMap.erase s.balance w } }, V)⟩] }
-
-/-- asyncRemove final step (the `finish` iteration): DeleteWalletStatus, DeleteKeystore (bucket, then
-    cache and current wallet INSIDE the transaction); on failure UpdateManagedKeystores reloads the
-    cache entry from the committed store. The credit / transaction record clean-up that precedes it
+/-- asyncRemove, the `finish` iteration (ONE transaction since the removal was made one phase):
+    removeWalletIndexes (unspent index, address records, deposit histories and balance of the wallet),
+    DeleteWalletStatus, DeleteKeystore (bucket, then cache and current wallet INSIDE the
+    transaction); on failure UpdateManagedKeystores reloads the cache entry from the committed store.
+    The credit / transaction record clean-up that precedes it in the same and in earlier transactions
     (RemoveRelevantTx) is C08's subject and not modelled here. -/
-def opRemoveFinal (nA nB : Nat) (w : Wid) : Op :=
+def opRemoveFinal (nI nA nB : Nat) (w : Wid) : Op :=
   { phases := [
+      ⟨nI, fun P V =>
+        let s := P.led
+        .ok ({ P with led := { s with unspent := s.unspent.filter (fun e => e.1.1 ≠ w),
+                                        addrs := s.addrs.filter (fun e => e.1.1 ≠ w),
+                                        game := s.game.filter (fun e => e.1.wallet ≠ w),
+                                        pendGame := s.pendGame.filter (fun e => e.1.1 ≠ w),
+                                        balance := AMap.erase s.balance w } }, V)⟩,
       ⟨nA, fun P V => .ok ({ P with led := { P.led with status := AMap.erase P.led.status w } }, V)⟩,
       ⟨nB, fun P V => if (AMap.get V.keys w).isNone then .error .notFound
                       else .ok ({ P with ks := AMap.erase P.ks w }, V)⟩,
@@ -338,19 +337,39 @@ def fastForward (env : Env) (n : Nat) (limit : Nat) : Nat → Nat → PStore →
         if r.ok then fastForward env n limit fuel (cur + 1) r.P r.V (k + r.commits) else (⟨false, r.P, r.V, k⟩, cur)
     else (⟨true, P, V, k⟩, cur)
 
-/-- NtfnsHandler.Start: fast-forward, catch-up, initTaskChan -/
-def start (env : Env) (n : Nat) (P : PStore) (V : PVol) : BootRes :=
+/-- Start, first step: the block the wallet is synced to may have left the node's chain while the
+    wallet was down (or its replacement was announced to a process that died). When the node's block at
+    the highest common height is not that block, it is handed to the follower, which takes the
+    reorganisation path and rolls the wallet back onto the node's chain. -/
+def resync (env : Env) (n : Nat) (P : PStore) (V : PVol) : BootRes :=
+  if P.led.syncedTo = 0 then ⟨true, P, V, 0⟩ else
+  let at_ := min P.led.syncedTo env.node.tipHeight
+  match env.node.blockAt at_ with
+  | none => ⟨false, P, V, 0⟩
+  | some blk =>
+    if at_ < P.led.syncedTo ∨ blk.id ≠ V.led.best.hash then
+      let r := (opBlock env n blk).run none P V
+      ⟨r.ok, r.P, r.V, r.commits⟩
+    else ⟨true, P, V, 0⟩
+
+/-- Start after the resync step: fast-forward, catch-up, initTaskChan (`k0` = commits so far) -/
+def startCore (env : Env) (n : Nat) (P : PStore) (V : PVol) (k0 : Nat) : BootRes :=
   let syncH := P.led.syncedTo
   let indexH := env.node.tipHeight
   let hasReady := !(readyWallets P.led (walletsOf V.keys)).isEmpty
   let (r1, cur) :=
     if !hasReady && indexH > Gen.Updates.ffGap then
-      fastForward env n (indexH - Gen.Updates.ffGap) (indexH + 1) (syncH + 1) P V 0
-    else (⟨true, P, V, 0⟩, syncH + 1)
+      fastForward env n (indexH - Gen.Updates.ffGap) (indexH + 1) (syncH + 1) P V k0
+    else (⟨true, P, V, k0⟩, syncH + 1)
   if !r1.ok then r1 else
   let r2 := catchUp env n (indexH + 1) cur r1.P r1.V r1.commits
   if !r2.ok then r2 else
   { r2 with V := { r2.V with tasks := requeue r2.P } }
+
+/-- NtfnsHandler.Start: resync, fast-forward, catch-up, initTaskChan -/
+def start (env : Env) (n : Nat) (P : PStore) (V : PVol) : BootRes :=
+  let r0 := resync env n P V
+  if !r0.ok then r0 else startCore env n r0.P r0.V r0.commits
 
 /-- a process crash keeps the store and nothing else; the restarted process runs NewWalletManager
     (one Update that changes nothing once the buckets exist) and Start -/
@@ -360,13 +379,13 @@ def crash (env : Env) (n : Nat) (P : PStore) : BootRes :=
 
 -- ------------------------------------------------------------------ expectations on the regenerated facts (tie B)
 
-/-- the call-site table the model is built on: one Update per operation; Start's and asyncRemove's
-    second site sit in a loop (one commit per fast-forwarded height / per removal step) -/
+/-- the call-site table the model is built on: one Update per operation; the sites of Start and of
+    asyncRemove sit in a loop (one commit per fast-forwarded height / per removal batch) -/
 def expectedSites : List (String × String × Nat × Nat) := [
   ("masswallet/ntfnshandler.go", "NtfnsHandler.OnRemoveWallet", 1, 0),
   ("masswallet/ntfnshandler.go", "NtfnsHandler.Start", 1, 1),
   ("masswallet/ntfnshandler.go", "NtfnsHandler.asyncImport", 1, 0),
-  ("masswallet/ntfnshandler.go", "NtfnsHandler.asyncRemove", 2, 1),
+  ("masswallet/ntfnshandler.go", "NtfnsHandler.asyncRemove", 1, 1),
   ("masswallet/ntfnshandler.go", "NtfnsHandler.onRelevantTx", 1, 0),
   ("masswallet/ntfnshandler.go", "NtfnsHandler.processConnectedBlock", 1, 0),
   ("masswallet/wallet.go", "NewWalletManager", 1, 0),
